@@ -67,7 +67,19 @@ class C01(Check):
     assumptions = ["codec libraries and multivolumefile are trusted", "block size / chunk limit set by attribute patching of get_default_blocksize / get_memory_limit",
                    "AES IV replaced by a seeded stream so archives are a function of the seed"]
     budget_s = {"quick": 70, "thorough": 1500}
-    sandbox_timeout = 60
+    sandbox_timeout = 120
+
+    def on_abnormal(self, case, res, env):
+        out = super().on_abnormal(case, res, env)
+        if res[0] != "hang" and case.get("filters"):
+            # the interpreter died: KF-72 is decided by running pyppmd alone, in a process of its own, on this folder's input
+            try:
+                if arch.kf72(case["filters"], [arch.member_bytes(m) for m in case["members"]]):
+                    for v in out.violations:
+                        v["signature"]["kf72"] = True
+            except Exception:
+                pass
+        return out
 
     def setup(self, env):
         env.state["iv"] = patches.deterministic_iv(env.seed * 7919 + env.shard)
@@ -153,6 +165,17 @@ class C01(Check):
         wblock = case["block"] or (1 << 20)
         if any(n >= 2 * wblock for n in lens):
             sig_base["multiblock"] = True
+        # bound the work of one case by its generated size, not by the clock: a 2 MiB member read in 1-byte pieces or written in
+        # 64-byte blocks is millions of interpreter-level steps and says nothing new
+        steps = sum(lens) // max(1, case["chunk"] or (1 << 27)) + sum(lens) // max(1, case["block"] or (1 << 20))
+        if steps > 40000:
+            out.skipped = "too-many-steps"
+            return out
+        if case["target"] == "multivolume" and sum(lens) // max(1, case.get("volume") or 1) > 900 and not case.get("pin_known"):
+            # KF-45 (open, dependency): beyond ~900 volumes multivolumefile fails or crawls; constructed around and counted, pinned
+            # by regress/C01/kf45.json
+            out.skipped = "KF-45"
+            return out
         if filters and is_kf03(filters) and not case.get("pin_known"):
             # KF-03 (open): Delta+BCJ in front of LZMA1 is written but cannot be decoded; constructed around, counted
             # (regress/C01/kf03.json pins it with "pin_known" so that every run reports the finding once)
